@@ -311,6 +311,10 @@ impl<'tcx> Dumper<'tcx> {
 
     // ------------------------------------------------------------- constants
     fn alloc_bytes(&self, alloc_id: mir::interpret::AllocId, offset: u64, len: Option<u64>) -> J {
+        self.alloc_bytes_d(alloc_id, offset, len, 0)
+    }
+
+    fn alloc_bytes_d(&self, alloc_id: mir::interpret::AllocId, offset: u64, len: Option<u64>, depth: u32) -> J {
         match self.tcx.try_get_global_alloc(alloc_id) {
             Some(GlobalAlloc::Memory(a)) => {
                 let a = a.inner();
@@ -324,9 +328,31 @@ impl<'tcx> Dumper<'tcx> {
                 for b in bytes {
                     let _ = write!(hex, "{:02x}", b);
                 }
+                // pointers stored in this allocation: where, into which allocation (emitted recursively), at which offset
+                let mut ptrs = Vec::new();
+                if depth < 3 {
+                    for (off, prov) in a.provenance().ptrs().iter() {
+                        let o = off.bytes();
+                        if o < offset || o + 8 > end {
+                            continue;
+                        }
+                        let raw = a.inspect_with_uninit_and_ptr_outside_interpreter(o as usize..(o + 8) as usize);
+                        let mut addend: u64 = 0;
+                        for (i, b) in raw.iter().enumerate() {
+                            addend |= (*b as u64) << (8 * i);
+                        }
+                        let tgt = self.alloc_bytes_d(prov.alloc_id(), 0, None, depth + 1);
+                        ptrs.push(jobj(vec![
+                            ("at", jint((o - offset) as i128)),
+                            ("addend", jint(addend as i128)),
+                            ("to", tgt),
+                        ]));
+                    }
+                }
                 jobj(vec![
                     ("bytes", jstr(hex)),
                     ("has_ptrs", J::Bool(!a.provenance().ptrs().is_empty())),
+                    ("ptrs", jarr(ptrs)),
                 ])
             }
             Some(GlobalAlloc::Static(def)) => jobj(vec![("static", jstr(self.path(def)))]),
